@@ -441,7 +441,11 @@ def replay(rep, repo):
     print("events:", [e["e"] for e in s["events"]])
     print("failing clauses now:", v["fails"])
     print("failing clauses when recorded:", rep.get("fails"))
-    mine = [c for c in v["fails"] if classify(prop, c, []) == "violation"]
+    known_open = [k for k in common.load_known()["open"] if k["property"] == prop]
+    cls = [classify(prop, c, known_open) for c in v["fails"]]
+    for kid in sorted({c for c in cls if c.startswith("known:")}):
+        print("KNOWN-FINDING: property=%s %s" % (prop, kid.split(":")[1]))
+    mine = [c for c, k in zip(v["fails"], cls) if k == "violation"]
     if mine:
         print("VIOLATION property=%s replay=%s" % (prop, "(replayed)"))
         return 1
